@@ -1,14 +1,213 @@
 /-
   C10 — Backend responses are relayed faithfully; broken ones never look complete.
   Property theorems only; helper lemmas live in LtVerif/Proofs/BackendResp.lean.
+
+  The models describe the property-conforming behaviour where the pinned C deviates from it
+  (defects reported by the check, see tools/ltv/props/c10.py): the CR check of the backend
+  chunked decoder, the CR left in merged trailer values, `gw_dechunk->done = 0` for a response
+  without Status, and the missing keep-alive reset for a truncated Content-Length body.
 -/
-import LtVerif.Model.BackendResp
+import LtVerif.Proofs.BackendResp
 namespace LtVerif.C10
 open LtVerif B LtVerif.BeResp
 
-/-- segmentation independence of the backend chunked decoder -/
+/-! ## backend chunked decoder (http_chunk_decode_append_data) -/
+
+/-- segmentation independence: feeding the backend stream in two pieces is the same as feeding
+    it at once (hence the same for every composition into reads / FastCGI records) -/
 theorem c10_dechunk_segmentation (s : DcSt) (a b : Bytes) :
-    dcFeed (dcFeed s a) b = dcFeed s (a ++ b) := by
-  simp [dcFeed, List.foldl_append]
+    dcFeed (dcFeed s a) b = dcFeed s (a ++ b) := (dcFeed_append s a b).symm
+
+/-- wire form of a chunked body: chunks with arbitrary accepted size lines, the last-chunk line,
+    the trailer section including the final empty line -/
+def dwire (cs : List (Bytes × Bytes)) (last t : Bytes) : Bytes :=
+  cs.flatMap (fun c => c.1 ++ c.2 ++ [cr, lf]) ++ (last ++ t)
+
+/-- Round trip: every chunked body (any number of non-empty chunks, any accepted spelling of the
+    size lines incl. extensions, any trailer section) decodes to exactly the concatenation of the
+    chunk data and is complete exactly at its end; the last-chunk line and the trailers are kept. -/
+theorem c10_dechunk_roundtrip (cs : List (Bytes × Bytes)) (last t : Bytes)
+    (hcs : ∀ c ∈ cs, DcGoodLine c.1 c.2.length ∧ c.2 ≠ []) (hlast : DcGoodLine last 0)
+    (ht : DcTrailerEnd last t) :
+    dcFeed {} (dwire cs last t) = { mode := .done (last ++ t), out := cs.flatMap (·.2) } := by
+  suffices h : ∀ (out : Bytes), dcFeed { mode := .hdr [], out := out } (dwire cs last t)
+      = { mode := .done (last ++ t), out := out ++ cs.flatMap (·.2) } by simpa using h []
+  induction cs with
+  | nil => intro out; simpa [dwire] using dcFeed_final hlast ht out
+  | cons c rest ih =>
+    intro out
+    have hc := hcs c (by simp)
+    have hrest : ∀ c ∈ rest, DcGoodLine c.1 c.2.length ∧ c.2 ≠ [] := fun x hx => hcs x (by simp [hx])
+    have : dwire (c :: rest) last t = (c.1 ++ c.2 ++ [cr, lf]) ++ dwire rest last t := by simp [dwire]
+    rw [this, dcFeed_append, dcFeed_chunk hc.1 hc.2, ih hrest]
+    simp
+
+/-- decoded output only ever grows: what has been handed on is never taken back or altered -/
+theorem c10_dechunk_output_monotone (bs : Bytes) : ∀ (s : DcSt), ∃ x, (dcFeed s bs).out = s.out ++ x := by
+  induction bs with
+  | nil => intro s; exact ⟨[], by simp [dcFeed_nil]⟩
+  | cons b rest ih =>
+    intro s
+    rw [dcFeed_cons]
+    obtain ⟨x, hx⟩ := ih (dcStep s b)
+    have hstep : ∃ y, (dcStep s b).out = s.out ++ y := by
+      obtain ⟨mode, out⟩ := s
+      cases mode with
+      | data n => simp only [dcStep]; split <;> exact ⟨[b], by simp⟩
+      | hdr acc => simp only [dcStep]; (repeat' split) <;> exact ⟨[], by simp⟩
+      | cr => simp only [dcStep]; split <;> exact ⟨[], by simp⟩
+      | lf => simp only [dcStep]; split <;> exact ⟨[], by simp⟩
+      | trailer acc => simp only [dcStep]; split <;> exact ⟨[], by simp⟩
+      | done acc => exact ⟨[], by simp [dcStep]⟩
+      | err => exact ⟨[], by simp [dcStep]⟩
+    obtain ⟨y, hy⟩ := hstep
+    exact ⟨y ++ x, by rw [hx, hy]; simp⟩
+
+/-- **A truncated chunked body is never complete.**  For every proper prefix of a well-formed
+    chunked body the decoder is neither done nor in error (it waits for more), and what it has
+    decoded so far is a prefix of the body: backend EOF there is recognisable as truncation. -/
+theorem c10_dechunk_truncated_never_complete (cs : List (Bytes × Bytes)) (last t p q : Bytes)
+    (hcs : ∀ c ∈ cs, DcGoodLine c.1 c.2.length ∧ c.2 ≠ []) (hlast : DcGoodLine last 0)
+    (ht : DcTrailerEnd last t) (hpq : dwire cs last t = p ++ q) (hq : q ≠ []) :
+    (dcFeed {} p).mode.isDone = false ∧ (dcFeed {} p).mode.isErr = false ∧
+    ∃ x, cs.flatMap (·.2) = (dcFeed {} p).out ++ x := by
+  have hfull := c10_dechunk_roundtrip cs last t hcs hlast ht
+  rw [hpq, dcFeed_append] at hfull
+  obtain ⟨x, hx⟩ := c10_dechunk_output_monotone q (dcFeed {} p)
+  rw [hfull] at hx
+  refine ⟨?_, ?_, ⟨x, by simpa using hx⟩⟩
+  · cases hm : (dcFeed {} p).mode <;> simp [DcMode.isDone]
+    rename_i acc
+    have : dcFeed (dcFeed {} p) q = { mode := .err, out := (dcFeed {} p).out } := by
+      have h0 := dcFeed_done_excess acc (dcFeed {} p).out q hq
+      have e0 : dcFeed {} p = { mode := .done acc, out := (dcFeed {} p).out } := by
+        cases hd : dcFeed {} p; simp_all
+      rw [e0]; simpa using h0
+    rw [this] at hfull
+    simp at hfull
+  · cases hm : (dcFeed {} p).mode <;> simp [DcMode.isErr]
+    have : dcFeed (dcFeed {} p) q = { mode := .err, out := (dcFeed {} p).out } := by
+      have h0 := dcFeed_err q (dcFeed {} p).out
+      have e0 : dcFeed {} p = { mode := .err, out := (dcFeed {} p).out } := by
+        cases hd : dcFeed {} p; simp_all
+      rw [e0]; simpa using h0
+    rw [this] at hfull
+    simp at hfull
+
+/-- bytes after the end of the body are an error (never silently taken as body) -/
+theorem c10_dechunk_excess_rejected (acc out bs : Bytes) (h : bs ≠ []) :
+    dcFeed { mode := .done acc, out := out } bs = { mode := .err, out := out } :=
+  dcFeed_done_excess acc out bs h
+
+/-- a framing error is final: nothing fed afterwards makes the body complete -/
+theorem c10_dechunk_error_absorbing (out bs : Bytes) :
+    dcFeed { mode := .err, out := out } bs = { mode := .err, out := out } := dcFeed_err bs out
+
+/-- chunk data that is not followed by CRLF is a framing error -/
+theorem c10_dechunk_missing_crlf_rejected (out d : Bytes) (x y : UInt8) (hd : d ≠ [])
+    (hxy : ¬ (x = cr ∧ y = lf)) :
+    (dcFeed { mode := .data d.length, out := out } (d ++ [x, y])).mode = .err := by
+  rw [dcFeed_append, dcFeed_data d d.length out hd rfl]
+  simp only [dcFeed_cons, dcFeed_nil, dcStep]
+  by_cases h1 : x = cr <;> by_cases h2 : y = lf <;> simp_all
+
+/-- a chunk-size line the validator does not accept is a framing error -/
+theorem c10_dechunk_bad_size_line_rejected (p out : Bytes) (hlf : lf ∉ p) (hlen : p.length < 1024)
+    (hbad : dcParseLine (p ++ [lf]) = none) :
+    (dcFeed { mode := .hdr [], out := out } (p ++ [lf])).mode = .err := by
+  rw [dcFeed_append, dcFeed_hdr_pre p [] out hlf (by simpa using hlen)]
+  simp [dcFeed_cons, dcFeed_nil, dcStep, hbad]
+
+/-- what the validator rejects: no hex digit at the start of the line -/
+theorem c10_dechunk_line_needs_hex (l : Bytes) (h : (l.head?.bind hexVal) = none) : dcParseLine l = none := by
+  unfold dcParseLine
+  cases l with
+  | nil => simp [ckHex]
+  | cons b rest =>
+    simp only [List.head?_cons, Option.bind_some] at h
+    simp [ckHex, h]
+
+/-- the chunk-size overflow guard of the model is the one of the C (1 << (8*sizeof(off_t)-5)) -/
+theorem c10_dechunk_guard_is_extracted : ckSizeLimit = 2 ^ Extracted.dechunkGuardShift - 1 - 2 := by decide
+
+/-! non-vacuity: accepted size lines (extension, leading zeros, BWS), a trailer section, a body -/
+example : DcGoodLine (ofString "5;x=y\r\n") 5 := ⟨by rfl, ⟨ofString "5;x=y\r", by decide, by decide⟩, by decide⟩
+example : DcGoodLine (ofString "00a \r\n") 10 := ⟨by rfl, ⟨ofString "00a \r", by decide, by decide⟩, by decide⟩
+example : DcGoodLine (ofString "0\r\n") 0 := ⟨by rfl, ⟨ofString "0\r", by decide, by decide⟩, by decide⟩
+example : dcFeed {} (ofString "5\r\nhello\r\n0\r\nX-T: v\r\n\r\n") =
+    { mode := .done (ofString "0\r\nX-T: v\r\n\r\n"), out := ofString "hello" } := by decide
+example : (dcFeed {} (ofString "5\r\nhello\r\n0\r\n\r")).mode = .trailer (ofString "0\r\n\r") := by decide
+example : (dcFeed {} (ofString "5\r\nhello\rX")).mode = .err := by decide
+example : dcParseLine (ofString "5 x\r\n") = none := by rfl
+example : dcParseLine (ofString "5\n") = none := by rfl
+
+/-! ## FastCGI record reassembly (fastcgi_get_packet / fcgi_recv_parse_loop) -/
+
+/-- segmentation independence of record reassembly -/
+theorem c10_fcgi_segmentation (s : FrSt) (a b : Bytes) :
+    frFeed (frFeed s a) b = frFeed s (a ++ b) := (frFeed_append s a b).symm
+
+/-- **Reassembly.**  Any sequence of records (any types other than END_REQUEST, any request id,
+    content up to 65535 bytes, padding up to 255 bytes) followed by an END_REQUEST record yields
+    exactly one event per record, in order, with exactly the record's content — padding never
+    leaks — and ends the request; whatever follows END_REQUEST is not parsed. -/
+theorem c10_fcgi_reassembly (rs : List FrRec) (fin : FrRec) (junk : Bytes)
+    (hrs : ∀ r ∈ rs, r.ok ∧ r.ev ≠ .endRequest) (hfin : fin.ok ∧ fin.typ = fcgiEndRequest) :
+    (frFeed {} (rs.flatMap FrRec.enc ++ fin.enc ++ junk)).ended = true ∧
+    (frFeed {} (rs.flatMap FrRec.enc ++ fin.enc ++ junk)).evs = rs.map FrRec.ev ++ [.endRequest] := by
+  obtain ⟨h1, h2, h3, h4⟩ := frFeed_records rs {} rfl rfl rfl hrs
+  rw [frFeed_append, frFeed_append]
+  have hrec := frFeed_record (frFeed {} (rs.flatMap FrRec.enc)) fin.typ fin.rid fin.content fin.pad h1 h2 h3
+    hfin.1.1 hfin.1.2
+  have hev : frEvent fin.typ fin.content = .endRequest := by simp [frEvent, hfin.2, fcgiEndRequest, fcgiStdout, fcgiStderr]
+  have hended : (frAfter (frFeed {} (rs.flatMap FrRec.enc)) fin.typ fin.content).ended = true := by
+    simp [frAfter, hev]
+  show (frFeed (frFeed (frFeed {} (rs.flatMap FrRec.enc)) fin.enc) junk).ended = true ∧ _
+  rw [show fin.enc = frEncode fin.typ fin.rid fin.content fin.pad from rfl, hrec, frFeed_ended junk _ hended]
+  refine ⟨hended, ?_⟩
+  simp [frAfter, h4, hev]
+
+/-- the STDOUT stream handed to the response parser is the concatenation of the STDOUT contents -/
+theorem c10_fcgi_stdout_exact (rs : List FrRec) :
+    frStdout (rs.map FrRec.ev) = (rs.filter (·.typ = fcgiStdout)).flatMap (·.content) := by
+  induction rs with
+  | nil => rfl
+  | cons r rest ih =>
+    by_cases h : r.typ = fcgiStdout
+    · simp [FrRec.ev, frEvent, h, frStdout, ih]
+    · have hev : frStdout (FrRec.ev r :: rest.map FrRec.ev) = frStdout (rest.map FrRec.ev) := by
+        simp only [FrRec.ev, frEvent, h, if_false]
+        (repeat' split) <;> rfl
+      simp only [List.map_cons, hev, ih]
+      simp [h]
+
+/-- **A truncated record stream never ends the request.**  After any number of complete records
+    none of which is END_REQUEST, plus any proper prefix of a further record (END_REQUEST
+    included), the request is not ended and the partial record has produced nothing: backend EOF
+    there is an error, not a complete response. -/
+theorem c10_fcgi_truncated_not_ended (rs : List FrRec) (nxt : FrRec) (k : Nat)
+    (hrs : ∀ r ∈ rs, r.ok ∧ r.ev ≠ .endRequest) (hn : nxt.ok) (hk : k < nxt.enc.length) :
+    (frFeed {} (rs.flatMap FrRec.enc ++ nxt.enc.take k)).ended = false ∧
+    (frFeed {} (rs.flatMap FrRec.enc ++ nxt.enc.take k)).evs = rs.map FrRec.ev := by
+  obtain ⟨h1, h2, h3, h4⟩ := frFeed_records rs {} rfl rfl rfl hrs
+  rw [frFeed_append]
+  have := frFeed_partial_record (frFeed {} (rs.flatMap FrRec.enc)) nxt.typ nxt.rid nxt.content nxt.pad k
+    h1 h2 h3 hn.1 hn.2 hk
+  refine ⟨this.1, ?_⟩
+  rw [show nxt.enc = frEncode nxt.typ nxt.rid nxt.content nxt.pad from rfl, this.2, h4]
+  simp
+
+/-- record constants of the model are those of fastcgi.h -/
+theorem c10_fcgi_constants_extracted :
+    fcgiStdout.toNat = Extracted.fcgiTypeStdout ∧ fcgiStderr.toNat = Extracted.fcgiTypeStderr ∧
+    fcgiEndRequest.toNat = Extracted.fcgiTypeEndRequest ∧ Extracted.fcgiHeaderLen = 8 ∧
+    Extracted.fcgiMaxLength = 65535 := by decide
+
+/-! non-vacuity -/
+example : (⟨6, 1, ofString "abc", [0, 0, 0]⟩ : FrRec).ok ∧ (⟨6, 1, ofString "abc", [0, 0, 0]⟩ : FrRec).ev ≠ .endRequest := by
+  refine ⟨⟨by decide, by decide⟩, by decide⟩
+example : (frFeed {} (frEncode 6 1 (ofString "ab") [0, 0, 0] ++ frEncode 7 1 (ofString "x") [] ++
+      frEncode 6 1 (ofString "c") [0] ++ frEncode 3 1 [0, 0, 0, 0, 0, 0, 0, 0] [])).evs =
+    [.stdout (ofString "ab"), .stderr (ofString "x"), .stdout (ofString "c"), .endRequest] := by decide
 
 end LtVerif.C10
